@@ -381,6 +381,24 @@ class BuiltinMixin:
     def b_m_days(self, fr, f, args, kw, node):
         raise Unsupported('days()')
 
+    def b_datetime_datetime_strptime(self, fr, f, args, kw, node):
+        x, fmt = args
+        if isinstance(x, SDyn):
+            if not self.specmode and self.branch(z3.Not(Val.is_VStr(x.t))):
+                raise PyRaise('TypeError', getattr(node, 'lineno', None), 'strptime() argument 1 must be str')
+            x = SStr(Val.s(x.t))
+        if not isinstance(x, SStr):
+            raise Unsupported('strptime of non-string')
+        ok = uf('str_is_date_for', z3.StringSort(), z3.StringSort(), B)(x.t, fmt.t)
+        if not self.specmode and self.branch(z3.Not(ok)):
+            raise PyRaise('ValueError', getattr(node, 'lineno', None), 'time data does not match format')
+        o = uf('str_to_date', z3.StringSort(), z3.StringSort(), I)(x.t, fmt.t)
+        self.assume(z3.And(o >= 1, o <= MAXORD))
+        return SDate(o)
+
+    def b_m_date(self, fr, f, args, kw, node):
+        return f.self_
+
     def b_m_toordinal(self, fr, f, args, kw, node):
         return SInt(f.self_.t)
 
